@@ -71,7 +71,7 @@ Section Facts.
   (* ---------- the ghost [done] is the log of all events; [submitted] of all labels ---------- *)
   Lemma step_done s o : done (fst (fst (step s o))) = done s ++ snd (step s o).
   Proof.
-    destruct o as [t kind| |rid sq kind mid part n| |cls|t|status]; cbn [step].
+    destruct o as [t kind| |rid sq kind mid part n| |cls|t|status| |lim]; cbn [step].
     - destruct (closed s); cbn; [reflexivity|rewrite app_nil_r; reflexivity].
     - destruct (closed s); [cbn; rewrite app_nil_r; reflexivity|].
       destruct (max_inflight >? Z.of_nat (length (alive (now s) (pending s)))); [|reflexivity].
@@ -90,6 +90,8 @@ Section Facts.
     - destruct (closed s); [cbn; rewrite app_nil_r; reflexivity|].
       destruct (cls =? 0); [cbn; rewrite app_nil_r; reflexivity|reflexivity].
     - cbn. rewrite app_nil_r. reflexivity.
+    - destruct (closed s); [cbn; rewrite app_nil_r; reflexivity|reflexivity].
+    - destruct (closed s); [cbn; rewrite app_nil_r; reflexivity|reflexivity].
     - destruct (closed s); [cbn; rewrite app_nil_r; reflexivity|reflexivity].
   Qed.
 
@@ -120,7 +122,7 @@ Section Facts.
   Proof. intros H. eapply Forall_impl; [|exact H]. cbn; intros; lia. Qed.
 
   Ltac cnt_norm :=
-    unfold done_ks, open in *; cbn [done pending queue submitted closed next_k set_closed with_pending] in *;
+    unfold done_ks, open in *; cbn [done pending queue submitted closed next_k set_closed with_pending scanned] in *;
     repeat rewrite ?ev_ks_app, ?cnt_app, ?close_events_ks in *; cbn [ev_ks pend_ks q_ks map filter count_occ fst snd] in *.
 
   Lemma q_ks_snoc q k t kind : q_ks (q ++ [(k, t, kind)]) = q_ks q ++ (if negb (kind =? 1) then [k] else []).
@@ -135,7 +137,7 @@ Section Facts.
   Lemma step_inv s o : Inv s -> Inv (fst (fst (step s o))).
   Proof.
     intros HI. pose proof HI as [Hc Hl Hn Hcl].
-    destruct o as [t kind| |rid sq kind mid part n| |cls|t|status]; cbn [step].
+    destruct o as [t kind| |rid sq kind mid part n| |cls|t|status| |lim]; cbn [step].
     - (* Submit *)
       destruct (closed s) eqn:Ecl; cbn [fst].
       + destruct (Hcl eq_refl) as [Hp Hq].
@@ -214,6 +216,16 @@ Section Facts.
       destruct (closed s) eqn:Ecl; [exact HI|].
       constructor; cbn [fst set_closed submitted next_k closed pending queue done]; auto; try (intros; congruence).
       intros x. specialize (Hc x). cnt_norm. lia.
+    - (* Scan *)
+      destruct (closed s) eqn:Ecl; [exact HI|].
+      pose proof (fun x => expire_cnt (now s) (pending s) x) as He.
+      constructor; cbn [fst scanned submitted next_k closed pending queue done]; auto; try (intros; congruence).
+      intros x. specialize (Hc x). specialize (He x). cnt_norm. lia.
+    - (* Sleep *)
+      destruct (closed s) eqn:Ecl; [exact HI|].
+      pose proof (fun x => expire_cnt (now s) (pending s) x) as He.
+      constructor; cbn [fst scanned submitted next_k closed pending queue done]; auto; try (intros; congruence).
+      intros x. specialize (Hc x). specialize (He x). cnt_norm. lia.
   Qed.
 
   Lemma exec_snoc s ops o : exec s (ops ++ [o]) = fst (fst (step (exec s ops) o)).
@@ -294,23 +306,15 @@ Proof.
   induction evs as [|[[k t] v] evs IH]; [reflexivity|]. cbn [length flat take_events app]. rewrite IH. reflexivity.
 Qed.
 
-Lemma dec1_enc1 o id evs cl r :
-  dec1 o (enc1 o id evs cl ++ r) =
-  Some ({| o_id := match o with Pump => id | _ => -1 end; o_evs := evs; o_closed := cl |}, r).
+Lemma dec1_enc1 o id w evs cl r :
+  dec1 o (enc1 o id w evs cl ++ r) =
+  Some ({| o_id := match o with Pump => id | _ => -1 end; o_evs := evs;
+           o_wake := match o with Scan | Sleep _ => w | _ => -1 end; o_closed := cl |}, r).
 Proof.
-  assert (H : forall i, (let body (id : Z) (l : list Z) :=
-      match l with
-      | n :: r => if n <? 0 then None else
-                  match take_events (Z.to_nat n) r with
-                  | Some (es, cl :: r') => Some ({| o_id := id; o_evs := es; o_closed := negb (cl =? 0) |}, r')
-                  | _ => None
-                  end
-      | [] => None
-      end in body i ((Z.of_nat (length evs) :: flat evs ++ [b2z cl]) ++ r)) =
-      Some ({| o_id := i; o_evs := evs; o_closed := cl |}, r)).
-  { intros i. cbv zeta. cbn [app]. destruct (Z.of_nat (length evs) <? 0) eqn:E; [apply Z.ltb_lt in E; lia|].
-    rewrite Nat2Z.id, <- app_assoc, take_events_flat. cbn [app]. destruct cl; reflexivity. }
-  unfold dec1, enc1. destruct o; cbn [app]; try apply (H (-1)). apply (H id).
+  assert (Hlen : (Z.of_nat (length evs) <? 0) = false) by (apply Z.ltb_ge; lia).
+  assert (Hcl : negb (b2z cl =? 0) = cl) by (destruct cl; reflexivity).
+  unfold dec1, enc1.
+  destruct o; cbn [app]; rewrite Hlen, Nat2Z.id, <- app_assoc, take_events_flat; cbn [app]; rewrite Hcl; reflexivity.
 Qed.
 
 Lemma ev_eqb_refl evs : ev_eqb evs evs = true.
@@ -451,6 +455,78 @@ Qed.
 Lemma existsb_in m l : In m l -> existsb (Z.eqb m) l = true.
 Proof. intros H. apply existsb_exists. exists m. split; [exact H|apply Z.eqb_refl]. Qed.
 
+(* ================= the wake-up instant ================= *)
+Lemma wake1_fold p : forall t, exists w, fold_left wake1 p (Some t) = Some w /\ w <= t /\
+  Forall (fun x => w <= e_deadline (snd x)) p /\ (w = t \/ exists x, In x p /\ e_deadline (snd x) = w).
+Proof.
+  induction p as [|x p IH]; intros t.
+  - exists t. cbn. repeat split; auto; lia.
+  - cbn [fold_left wake1]. destruct (Z.gtb_spec t (e_deadline (snd x))) as [Hgt|Hle].
+    + destruct (IH (e_deadline (snd x))) as (w & Hw & Hwt & Hall & Hin). exists w. split; [exact Hw|]. split; [lia|]. split.
+      * constructor; [exact Hwt|exact Hall].
+      * right. destruct Hin as [->|(y & Hy & Hd)];
+          [exists x; split; [left; reflexivity|reflexivity]|exists y; split; [right; exact Hy|exact Hd]].
+    + destruct (IH t) as (w & Hw & Hwt & Hall & Hin). exists w. split; [exact Hw|]. split; [lia|]. split.
+      * constructor; [lia|exact Hall].
+      * destruct Hin as [->|(y & Hy & Hd)]; [left; reflexivity|right; exists y; split; [right; exact Hy|exact Hd]].
+Qed.
+
+(* next_timeout's loop returns the minimum of the deadlines it has seen: not after any of them, and one of them *)
+Lemma next_wake_spec p :
+  match next_wake p with
+  | None => p = []
+  | Some w => Forall (fun x => w <= e_deadline (snd x)) p /\ exists x, In x p /\ e_deadline (snd x) = w
+  end.
+Proof.
+  unfold next_wake. destruct p as [|x p]; [reflexivity|]. cbn [fold_left wake1].
+  destruct (wake1_fold p (e_deadline (snd x))) as (w & -> & Hle & Hall & Hin). split.
+  - constructor; assumption.
+  - destruct Hin as [->|(y & Hy & Hd)]; [exists x; split; [left|]; reflexivity|exists y; split; [right; exact Hy|exact Hd]].
+Qed.
+
+Lemma alive_in nw p x : In x (alive nw p) <-> In x p /\ nw < e_deadline (snd x).
+Proof.
+  unfold alive. rewrite filter_In. unfold expired. destruct (Z.leb_spec (e_deadline (snd x)) nw); cbn [negb]; split; intros [A B]; split; auto; try lia; discriminate.
+Qed.
+
+Lemma next_wake_alive nw p :
+  match next_wake (alive nw p) with
+  | None => alive nw p = []
+  | Some w => nw < w /\ Forall (fun x => w <= e_deadline (snd x)) (alive nw p) /\
+              exists x, In x (alive nw p) /\ e_deadline (snd x) = w
+  end.
+Proof.
+  pose proof (next_wake_spec (alive nw p)) as H. destruct (next_wake (alive nw p)) as [w|]; [|exact H].
+  destruct H as [Hall (x & Hx & Hd)]. split; [|split; [exact Hall|exists x; split; assumption]].
+  apply alive_in in Hx. lia.
+Qed.
+
+Definition wake_val (nw : Z) (w : option Z) : Z := match w with Some w => w - nw | None => -1 end.
+
+Lemma wake_ok_model nw p : wake_ok nw (gin (alive nw p)) (wake_val nw (next_wake (alive nw p))) = true.
+Proof.
+  pose proof (next_wake_alive nw p) as H. destruct (next_wake (alive nw p)) as [w|]; cbn [wake_val].
+  - destruct H as (Hlt & Hall & (x & Hx & Hd)). unfold wake_ok.
+    destruct (gin (alive nw p)) as [|y l] eqn:E; [destruct (alive nw p); [destruct Hx|discriminate]|]. rewrite <- E.
+    apply andb_true_iff. split; [apply andb_true_iff; split|].
+    + apply Z.ltb_lt. lia.
+    + apply forallb_forall. intros z Hz. unfold gin in Hz. apply in_map_iff in Hz as (z0 & <- & Hz0).
+      rewrite Forall_forall in Hall. specialize (Hall _ Hz0). apply Z.leb_le. cbn. lia.
+    + apply existsb_exists. exists (proj x). split; [apply in_map; exact Hx|]. apply Z.eqb_eq. cbn. lia.
+  - rewrite H. reflexivity.
+Qed.
+
+Lemma slept_model nw lim p : slept nw lim (wake_val nw (next_wake (alive nw p))) = sleep_to nw lim (next_wake (alive nw p)).
+Proof.
+  pose proof (next_wake_alive nw p) as H. destruct (next_wake (alive nw p)) as [w|]; cbn [wake_val]; unfold slept, sleep_to.
+  - destruct H as (Hlt & _). destruct (Z.ltb_spec (w - nw) 0); [lia|]. destruct (lim <? 0); [lia|]. f_equal. lia.
+  - reflexivity.
+Qed.
+
+Lemma wake_open s o : closed s = false -> match o with Scan | Sleep _ => True | _ => False end ->
+  wake s o = wake_val (now s) (next_wake (alive (now s) (pending s))).
+Proof. intros Hc Ho. destruct o; try destruct Ho; cbn [wake]; rewrite Hc; reflexivity. Qed.
+
 Record Rel (s : st) (g : led) : Prop := {
   r_q : g_q g = queue s;
   r_in : g_in g = gin (pending s);
@@ -482,7 +558,8 @@ Section Oracle.
 
   Definition obs_of (s : st) (o : op) : ob :=
     let '(s', id, evs) := stepc s o in
-    {| o_id := match o with Pump => id | _ => -1 end; o_evs := evs; o_closed := closed s' |}.
+    {| o_id := match o with Pump => id | _ => -1 end; o_evs := evs;
+       o_wake := match o with Scan | Sleep _ => wake s o | _ => -1 end; o_closed := closed s' |}.
 
   Ltac rel_close HR :=
     constructor; cbn [closed_led set_closed g_q g_in g_closed g_now g_k g_maxid queue pending closed now next_k last_id gin map];
@@ -492,7 +569,7 @@ Section Oracle.
     exists g', check1 g o (obs_of s o) = Some g' /\ Rel (fst (fst (stepc s o))) g'.
   Proof.
     intros HR. pose proof HR as [Rq Rin Rcl Rnow Rk Rid Rpos].
-    unfold obs_of. destruct o as [t kind| |rid sq kind mid part n| |cls|t|status]; cbn [step check1].
+    unfold obs_of. destruct o as [t kind| |rid sq kind mid part n| |cls|t|status| |lim]; cbn [step check1].
     - (* Submit *)
       rewrite Rcl, Rk. destruct (closed s) eqn:Ecl; cbn [fst snd o_evs o_closed closed].
       + destruct (kind =? 1); cbn [negb]; rewrite ev_eqb_refl; cbn [andb];
@@ -593,6 +670,27 @@ Section Oracle.
       cbn [fst snd o_evs o_closed closed set_closed].
       rewrite (close_ok_close status None _ (pending s) (queue s) g Rin Rq) by (right; reflexivity). cbn [andb].
       eexists; split; [reflexivity|]. rel_close HR.
+    - (* Scan *)
+      rewrite Rcl. destruct (closed s) eqn:Ecl.
+      { cbn [fst snd o_evs o_closed o_wake closed wake]. rewrite Ecl. cbn. eexists; split; [reflexivity|exact HR]. }
+      rewrite Rin, Rnow.
+      rewrite (filter_gin (expired (now s)) (gexpired (now s)) (pending s) (gexpired_proj (now s))).
+      rewrite (filter_gin (fun x => negb (expired (now s) x)) (fun x => negb (gexpired (now s) x)) (pending s))
+        by (intros x; rewrite gexpired_proj; reflexivity).
+      rewrite timeouts_gin. fold (alive (now s) (pending s)).
+      cbn [fst snd o_evs o_closed o_wake closed scanned]. rewrite (wake_open s Scan Ecl I), Ecl, ev_eqb_refl, wake_ok_model.
+      cbn [andb negb]. eexists; split; [reflexivity|]. constructor; cbn; auto.
+    - (* Sleep *)
+      rewrite Rcl. destruct (closed s) eqn:Ecl.
+      { cbn [fst snd o_evs o_closed o_wake closed wake]. rewrite Ecl. cbn. eexists; split; [reflexivity|exact HR]. }
+      rewrite Rin, Rnow.
+      rewrite (filter_gin (expired (now s)) (gexpired (now s)) (pending s) (gexpired_proj (now s))).
+      rewrite (filter_gin (fun x => negb (expired (now s) x)) (fun x => negb (gexpired (now s) x)) (pending s))
+        by (intros x; rewrite gexpired_proj; reflexivity).
+      rewrite timeouts_gin. fold (alive (now s) (pending s)).
+      cbn [fst snd o_evs o_closed o_wake closed scanned]. rewrite (wake_open s (Sleep lim) Ecl I), Ecl, ev_eqb_refl, wake_ok_model.
+      cbn [andb negb]. eexists; split; [reflexivity|]. constructor; cbn [g_q g_in g_closed g_now g_k g_maxid queue pending closed now next_k last_id scanned]; auto.
+      apply slept_model.
   Qed.
 End Oracle.
 
@@ -601,9 +699,12 @@ Proof.
   induction ops as [|o ops IH]; intros s g HR; [reflexivity|].
   cbn [run_from oracle_from].
   destruct (check_step (c_maxinfl c) (c_maxpend c) s g o HR) as (g' & Hck & HR').
-  unfold obs_of in Hck.
+  unfold obs_of in Hck. unfold stepw.
   destruct (step decode_parts (c_maxinfl c) (c_maxpend c) s o) as [[s' id] evs] eqn:Es.
-  cbn [fst] in HR'. rewrite dec1_enc1, Hck. apply IH. exact HR'.
+  cbn [fst] in HR'. rewrite dec1_enc1.
+  replace (match o with Scan | Sleep _ => wake s o | _ => -1 end) with (wake s o) in Hck by (destruct o; reflexivity).
+  replace (match o with Scan | Sleep _ => wake s o | _ => -1 end) with (wake s o) by (destruct o; reflexivity).
+  rewrite Hck. apply IH. exact HR'.
 Qed.
 
 Lemma oracle_holds c : valid c -> known c = 0 -> oracle c (run c) = true.
@@ -752,7 +853,7 @@ Section Facts2.
   Proof.
     intros HJ. pose proof HJ as [Hok Hn].
     assert (Hnil : forall lr id evs, Inv2 (set_closed s lr id evs)) by (intros; constructor; cbn; constructor).
-    destruct o as [t kind| |rid sq kind mid part n| |cls|t|status]; cbn [step].
+    destruct o as [t kind| |rid sq kind mid part n| |cls|t|status| |lim]; cbn [step].
     - destruct (closed s); cbn [fst]; constructor; cbn; assumption.
     - destruct (closed s); [exact HJ|].
       assert (Hok1 : Forall (rid_ok (last_id s)) (alive (now s) (pending s))) by (apply forall_filter; exact Hok).
@@ -783,6 +884,10 @@ Section Facts2.
     - destruct (closed s); [exact HJ|]. destruct (cls =? 0); [exact HJ|apply Hnil].
     - constructor; cbn; assumption.
     - destruct (closed s); [exact HJ|apply Hnil].
+    - destruct (closed s); [exact HJ|]. constructor; cbn [fst scanned pending last_id];
+        [apply forall_filter; exact Hok|apply nodup_fst_filter; exact Hn].
+    - destruct (closed s); [exact HJ|]. constructor; cbn [fst scanned pending last_id];
+        [apply forall_filter; exact Hok|apply nodup_fst_filter; exact Hn].
   Qed.
 
   Lemma exec_inv2 ops : forall s, Inv2 s -> Inv2 (exec s ops).
@@ -812,7 +917,7 @@ Section Facts2.
       dec cs = inl m /\ Forall (fun c => k_rid c = rid) cs.
   Proof.
     intros [Hok _] Hin.
-    destruct o as [t kind| |rid sq kind mid part n| |cls|t|status]; cbn [step] in Hin.
+    destruct o as [t kind| |rid sq kind mid part n| |cls|t|status| |lim]; cbn [step] in Hin.
     - destruct (closed s); cbn in Hin; [|destruct Hin]. destruct (negb (kind =? 1)); cbn in Hin; [|destruct Hin].
       destruct Hin as [Hin|[]]. inversion Hin.
     - destruct (closed s); [destruct Hin|].
@@ -838,6 +943,8 @@ Section Facts2.
     - destruct (closed s); [destruct Hin|]. destruct (cls =? 0); [destruct Hin|]. cbn [snd] in Hin. apply close_events_tag in Hin. discriminate.
     - destruct Hin.
     - destruct (closed s); [destruct Hin|]. cbn [snd] in Hin. apply close_events_tag in Hin. discriminate.
+    - destruct (closed s); [destruct Hin|]. cbn [snd] in Hin. apply timeouts_tag in Hin. discriminate.
+    - destruct (closed s); [destruct Hin|]. cbn [snd] in Hin. apply timeouts_tag in Hin. discriminate.
   Qed.
 
   (* ---------- request ids are never reused: an id that is not pending stays not pending ---------- *)
@@ -845,7 +952,7 @@ Section Facts2.
     rid <= last_id (fst (fst (step s o))) /\ find rid (pending (fst (fst (step s o)))) = None.
   Proof.
     intros Hl Hf.
-    destruct o as [t kind| |r sq kind mid part n| |cls|t|status]; cbn [step].
+    destruct o as [t kind| |r sq kind mid part n| |cls|t|status| |lim]; cbn [step].
     - destruct (closed s); cbn; auto.
     - destruct (closed s); [auto|].
       pose proof (find_filter_none rid (fun x => negb (expired (now s) x)) (pending s) Hf) as Hf1. fold (alive (now s) (pending s)) in Hf1.
@@ -865,6 +972,10 @@ Section Facts2.
     - destruct (closed s); [auto|]. destruct (cls =? 0); cbn; auto.
     - cbn; auto.
     - destruct (closed s); cbn; auto.
+    - destruct (closed s); [auto|]. cbn [fst scanned pending last_id]. split; [exact Hl|].
+      apply (find_filter_none rid (fun x => negb (expired (now s) x))). exact Hf.
+    - destruct (closed s); [auto|]. cbn [fst scanned pending last_id]. split; [exact Hl|].
+      apply (find_filter_none rid (fun x => negb (expired (now s) x))). exact Hf.
   Qed.
 
   Lemma gone_stays_gone ops : forall s rid, rid <= last_id s -> find rid (pending s) = None ->
@@ -893,7 +1004,7 @@ Section Facts2.
   Proof.
     intros HI [Hok Hn] Hin Hev. pose proof (pend_ks_nodup s HI) as Hkn.
     assert (Hrl : rid <= last_id s) by (rewrite Forall_forall in Hok; destruct (Hok _ Hin) as [A _]; exact A).
-    destruct o as [t0 kind| |r sq kind mid part n| |cls|t0|status]; cbn [step] in *.
+    destruct o as [t0 kind| |r sq kind mid part n| |cls|t0|status| |lim]; cbn [step] in *.
     - exfalso. assert (Hlt : e_k e < next_k s).
       { apply (open_lt s _ HI). unfold pend_ks. apply in_map_iff. exists (rid, e). split; [reflexivity|exact Hin]. }
       destruct (closed s); cbn in Hev; [|destruct Hev]. destruct (negb (kind =? 1)); cbn in Hev; [|destruct Hev].
@@ -925,6 +1036,14 @@ Section Facts2.
     - destruct (closed s); [destruct Hev|]. destruct (cls =? 0); [destruct Hev|]. cbn. split; [lia|reflexivity].
     - destruct Hev.
     - destruct (closed s); [destruct Hev|]. cbn. split; [lia|reflexivity].
+    - destruct (closed s); [destruct Hev|]. cbn [fst snd scanned pending last_id] in *. split; [lia|].
+      unfold timeouts in Hev. apply in_map_iff in Hev as (x & Hx & Hxin). apply filter_In in Hxin as [Hxin Hexp].
+      assert (x = (rid, e)) by (apply (ks_unique (pending s)); auto; cbn [snd]; congruence). subst x.
+      apply (find_filter_out rid e); [exact Hn|exact Hin|]. rewrite Hexp. reflexivity.
+    - destruct (closed s); [destruct Hev|]. cbn [fst snd scanned pending last_id] in *. split; [lia|].
+      unfold timeouts in Hev. apply in_map_iff in Hev as (x & Hx & Hxin). apply filter_In in Hxin as [Hxin Hexp].
+      assert (x = (rid, e)) by (apply (ks_unique (pending s)); auto; cbn [snd]; congruence). subst x.
+      apply (find_filter_out rid e); [exact Hn|exact Hin|]. rewrite Hexp. reflexivity.
   Qed.
 
   (* once the request filed under an id has completed - response, timeout, abort, close - every later
@@ -976,3 +1095,202 @@ Lemma legacy_merge_panics :
   merge [mk_chunk 1001 4294967294 0 70 0 2; mk_chunk 1001 4294967295 1 70 1 2]
   = [mk_chunk 1001 4294967294 0 70 0 2; mk_chunk 1001 4294967295 1 70 1 2].
 Proof. vm_compute. split; reflexivity. Qed.
+
+(* ================= a transport that sleeps only until the wake-up it was given ================= *)
+(* histories in which no time passes unnoticed: time advances only inside Sleep, that is no further
+   than the wake-up instant next_timeout returned *)
+Definition timely (o : op) : Prop := match o with Advance t => t <= 0 | _ => True end.
+(* the operations that begin with a call of next_timeout *)
+Definition scans (o : op) : Prop := match o with Pump | Scan | Sleep _ => True | _ => False end.
+(* no deadline has passed: every pending request's deadline is now or later *)
+Definition Due (s : st) : Prop := Forall (fun x => now s <= e_deadline (snd x)) (pending s).
+
+Lemma sleep_to_le nw lim p : Forall (fun x => sleep_to nw lim (next_wake (alive nw p)) <= e_deadline (snd x)) (alive nw p).
+Proof.
+  pose proof (next_wake_alive nw p) as H. destruct (next_wake (alive nw p)) as [w|]; [|rewrite H; constructor].
+  destruct H as (_ & Hall & _). eapply Forall_impl; [|exact Hall]. cbn beta. intros x Hx. unfold sleep_to.
+  destruct (lim <? 0); lia.
+Qed.
+
+Lemma sleep_to_ge nw lim p : nw <= sleep_to nw lim (next_wake (alive nw p)).
+Proof.
+  pose proof (next_wake_alive nw p) as H. unfold sleep_to. destruct (next_wake (alive nw p)) as [w|].
+  - destruct H as (Hlt & _). destruct (Z.ltb_spec lim 0); lia.
+  - destruct (Z.ltb_spec lim 0); lia.
+Qed.
+
+Lemma alive_due nw p : Forall (fun x => nw <= e_deadline (snd x)) (alive nw p).
+Proof. apply Forall_forall. intros x Hx. apply alive_in in Hx. lia. Qed.
+
+Section Facts3.
+  Variable dec : list chunk -> Z + Z.
+  Variable max_inflight max_pending : Z.
+  Notation step := (step dec max_inflight max_pending).
+  Notation exec := (exec dec max_inflight max_pending).
+
+  Lemma due_init : Due init.
+  Proof. constructor. Qed.
+
+  Lemma step_due s o : timely o -> Due s -> Due (fst (fst (step s o))).
+  Proof.
+    unfold Due. intros Ht HD.
+    assert (Hnil : forall lr id evs, Forall (fun x => now (set_closed s lr id evs) <= e_deadline (snd x)) (pending (set_closed s lr id evs)))
+      by (intros; constructor).
+    destruct o as [t kind| |rid sq kind mid part n| |cls|t|status| |lim]; cbn [step].
+    - destruct (closed s); cbn [fst pending now]; exact HD.
+    - destruct (closed s); [exact HD|].
+      pose proof (alive_due (now s) (pending s)) as Ha.
+      destruct (max_inflight >? Z.of_nat (length (alive (now s) (pending s)))); [|exact Ha].
+      destruct (queue s) as [|[[k t] kind] q']; [exact Ha|].
+      destruct (kind =? 2); cbn [fst]; [apply Hnil|]. cbn [pending now].
+      apply Forall_app. split; [exact Ha|]. destruct (kind =? 1); constructor; [cbn; lia|constructor].
+    - destruct (closed s); [exact HD|].
+      destruct (find rid (pending s)) as [e|] eqn:Ef; [|exact HD].
+      assert (Hrm : Forall (fun x => now s <= e_deadline (snd x)) (remove rid (pending s))) by (apply forall_remove; exact HD).
+      destruct (kind =? 0).
+      + destruct ((0 <? max_pending) && (max_pending <? Z.of_nat (length (e_chunks e ++ [mk_chunk rid sq kind mid part n]))));
+          cbn [fst with_pending pending now]; [exact Hrm|].
+        apply Forall_forall. intros x Hx. apply update_in in Hx as [Hx|[-> _]].
+        * rewrite Forall_forall in HD. apply HD. exact Hx.
+        * apply find_in in Ef. rewrite Forall_forall in HD. specialize (HD _ Ef). exact HD.
+      + destruct (kind =? 1); [|exact Hrm].
+        destruct (C12.Model.receive (last_recv s) chan (map to12 (merge (e_chunks e ++ [mk_chunk rid sq kind mid part n]))));
+          cbn [fst]; try apply Hnil.
+        destruct (dec (merge (e_chunks e ++ [mk_chunk rid sq kind mid part n]))); cbn [fst]; [exact Hrm|apply Hnil].
+    - destruct (closed s); [exact HD|apply Hnil].
+    - destruct (closed s); [exact HD|]. destruct (cls =? 0); [exact HD|apply Hnil].
+    - cbn [timely] in Ht. cbn [fst pending now]. replace (now s + Z.max 0 t) with (now s) by lia. exact HD.
+    - destruct (closed s); [exact HD|apply Hnil].
+    - destruct (closed s); [exact HD|]. apply alive_due.
+    - destruct (closed s); [exact HD|]. cbn [fst scanned pending now]. apply sleep_to_le.
+  Qed.
+
+  Lemma exec_due ops : forall s, Forall timely ops -> Due s -> Due (exec s ops).
+  Proof.
+    induction ops as [|o ops IH]; intros s Ht HD; [exact HD|]. inversion Ht; subst.
+    cbn [Model.exec fold_left]. apply IH; [assumption|]. apply step_due; assumption.
+  Qed.
+
+  (* the clock never goes back *)
+  Lemma step_now_mono s o : now s <= now (fst (fst (step s o))).
+  Proof.
+    destruct o as [t kind| |rid sq kind mid part n| |cls|t|status| |lim]; cbn [step].
+    - destruct (closed s); cbn; lia.
+    - destruct (closed s); [cbn; lia|].
+      destruct (max_inflight >? Z.of_nat (length (alive (now s) (pending s)))); [|cbn; lia].
+      destruct (queue s) as [|[[k t] kind] q']; [cbn; lia|]. destruct (kind =? 2); cbn; lia.
+    - destruct (closed s); [cbn; lia|]. destruct (find rid (pending s)) as [e|]; [|cbn; lia].
+      destruct (kind =? 0).
+      { destruct ((0 <? max_pending) && (max_pending <? Z.of_nat (length (e_chunks e ++ [mk_chunk rid sq kind mid part n])))); cbn; lia. }
+      destruct (kind =? 1); [|cbn; lia].
+      destruct (C12.Model.receive (last_recv s) chan (map to12 (merge (e_chunks e ++ [mk_chunk rid sq kind mid part n])))); try (cbn; lia).
+      destruct (dec (merge (e_chunks e ++ [mk_chunk rid sq kind mid part n]))); cbn; lia.
+    - destruct (closed s); cbn; lia.
+    - destruct (closed s); [cbn; lia|]. destruct (cls =? 0); cbn; lia.
+    - cbn. lia.
+    - destruct (closed s); cbn; lia.
+    - destruct (closed s); cbn; lia.
+    - destruct (closed s); [cbn; lia|]. cbn [fst scanned now]. apply sleep_to_ge.
+  Qed.
+
+  (* the events of an operation that scans contain the BadTimeout of exactly the expired requests *)
+  Lemma scan_timeouts s o k : closed s = false -> scans o ->
+    (In (k, 1, 2) (snd (step s o)) <-> In (k, 1, 2) (timeouts (now s) (pending s))).
+  Proof.
+    intros Hc Ho. destruct o; try destruct Ho.
+    - apply pump_timeouts. exact Hc.
+    - cbn [step]. rewrite Hc. reflexivity.
+    - cbn [step]. rewrite Hc. reflexivity.
+  Qed.
+
+  (* in a state in which no deadline has passed, an operation that scans completes with BadTimeout
+     exactly the pending requests whose deadline is this very instant *)
+  Lemma timeout_on_time s o k : Due s -> closed s = false -> scans o ->
+    (In (k, 1, 2) (snd (step s o)) <->
+     exists rid e, In (rid, e) (pending s) /\ e_k e = k /\ e_deadline e = now s).
+  Proof.
+    intros HD Hc Ho. rewrite (scan_timeouts s o k Hc Ho), timeout_iff_deadline. split.
+    - intros (rid & e & Hin & Hk & Hd). exists rid, e. repeat split; auto.
+      unfold Due in HD. rewrite Forall_forall in HD. specialize (HD _ Hin). cbn in HD. lia.
+    - intros (rid & e & Hin & Hk & Hd). exists rid, e. repeat split; auto. lia.
+  Qed.
+
+  (* ... and a response is delivered only to a request whose deadline has not passed *)
+  Lemma response_in_time s o k m : Inv2 s -> Due s -> In (k, 0, m) (snd (step s o)) ->
+    exists rid sq kind mid part n e,
+      o = Chunk rid sq kind mid part n /\ find rid (pending s) = Some e /\ e_k e = k /\ now s <= e_deadline e.
+  Proof.
+    intros HJ HD Hin. destruct (response_provenance dec max_inflight max_pending s o k m HJ Hin)
+      as (rid & sq & kind & mid & part & n & e & Ho & Hf & Hk & _).
+    exists rid, sq, kind, mid, part, n, e. repeat split; auto.
+    apply find_in in Hf. unfold Due in HD. rewrite Forall_forall in HD. exact (HD _ Hf).
+  Qed.
+
+  (* every submitted request, at any point of such a history: completed exactly once, or open exactly
+     once - queued, or pending with its deadline not passed *)
+  Lemma timely_ledger ops k : Forall timely ops -> In k (submitted (exec init ops)) ->
+    (cnt (done_ks (exec init ops)) k = 1 /\ cnt (open (exec init ops)) k = 0)%nat \/
+    ((cnt (done_ks (exec init ops)) k = 0 /\ cnt (open (exec init ops)) k = 1)%nat /\
+     (In k (q_ks (queue (exec init ops))) \/
+      exists rid e, In (rid, e) (pending (exec init ops)) /\ e_k e = k /\ now (exec init ops) <= e_deadline e)).
+  Proof.
+    intros Ht Hin. destruct (completed_or_open dec max_inflight max_pending ops k Hin) as [H|H]; [left; exact H|right].
+    split; [exact H|]. destruct H as [_ H].
+    assert (Hopen : In k (open (exec init ops))) by (apply cnt_in; lia).
+    unfold open in Hopen. apply in_app_or in Hopen as [Hp|Hq]; [right|left; exact Hq].
+    unfold pend_ks in Hp. apply in_map_iff in Hp as ([rid e] & Hk & Hx). exists rid, e. repeat split; auto.
+    pose proof (exec_due ops init Ht due_init) as HD. unfold Due in HD. rewrite Forall_forall in HD. exact (HD _ Hx).
+  Qed.
+
+  (* ---------- an idle transport that sleeps until the wake-ups it is given completes everything ---------- *)
+  Definition nap (s : st) : st := fst (fst (step s (Sleep (-1)))).
+  Definition Ripe (s : st) : Prop :=
+    pending s = [] \/ exists x, In x (pending s) /\ e_deadline (snd x) <= now s.
+
+  Lemma nap_open s : closed s = false ->
+    closed (nap s) = false /\ queue (nap s) = queue s /\ submitted (nap s) = submitted s /\
+    pending (nap s) = alive (now s) (pending s) /\ Ripe (nap s).
+  Proof.
+    intros Hc. unfold nap, Ripe. cbn [step]. rewrite Hc. cbn [fst scanned closed queue submitted pending now].
+    repeat split; auto.
+    pose proof (next_wake_alive (now s) (pending s)) as H. destruct (next_wake (alive (now s) (pending s))) as [w|].
+    - destruct H as (_ & _ & (x & Hx & Hd)). right. exists x. split; [exact Hx|]. cbn [sleep_to Z.ltb Z.compare]. lia.
+    - left. exact H.
+  Qed.
+
+  Lemma filter_length_le {A} (f : A -> bool) l : (length (filter f l) <= length l)%nat.
+  Proof. induction l as [|a l IH]; [cbn; lia|]. cbn [filter]. destruct (f a); cbn [length]; lia. Qed.
+
+  Lemma filter_length_lt {A} (f : A -> bool) l x : In x l -> f x = false -> (length (filter f l) < length l)%nat.
+  Proof.
+    induction l as [|a l IH]; [intros []|]. intros [->|Hin] Hf; cbn [filter length].
+    - rewrite Hf. pose proof (filter_length_le f l). lia.
+    - specialize (IH Hin Hf). destruct (f a); cbn [length]; lia.
+  Qed.
+
+  Lemma exec_cons s o l : exec s (o :: l) = exec (fst (fst (step s o))) l.
+  Proof. reflexivity. Qed.
+
+  Lemma drain n : forall s, closed s = false -> Ripe s -> (length (pending s) <= n)%nat ->
+    let s' := exec s (repeat (Sleep (-1)) n) in
+    pending s' = [] /\ closed s' = false /\ queue s' = queue s /\ submitted s' = submitted s.
+  Proof.
+    induction n as [|n IH]; intros s Hc HR Hl.
+    - cbn. repeat split; auto. destruct (pending s); [reflexivity|cbn in Hl; lia].
+    - cbn [repeat]. rewrite exec_cons. fold (nap s). destruct (nap_open s Hc) as (Hc' & Hq & Hs & Hp & HR').
+      assert (Hl' : (length (pending (nap s)) <= n)%nat).
+      { rewrite Hp. destruct HR as [E|(x & Hx & Hd)]; [rewrite E; cbn; lia|].
+        assert (length (alive (now s) (pending s)) < length (pending s))%nat; [|lia].
+        apply (filter_length_lt _ _ x Hx). unfold expired. destruct (Z.leb_spec (e_deadline (snd x)) (now s)); [reflexivity|lia]. }
+      destruct (IH (nap s) Hc' HR' Hl') as (A & B & C & D). cbv zeta. repeat split; auto; congruence.
+  Qed.
+
+  Lemma idle_drains s : closed s = false ->
+    let s' := exec s (repeat (Sleep (-1)) (S (length (pending s)))) in
+    pending s' = [] /\ closed s' = false /\ queue s' = queue s /\ submitted s' = submitted s.
+  Proof.
+    intros Hc. cbn [repeat]. rewrite exec_cons. fold (nap s). destruct (nap_open s Hc) as (Hc' & Hq & Hs & Hp & HR').
+    assert (Hl : (length (pending (nap s)) <= length (pending s))%nat) by (rewrite Hp; apply filter_length_le).
+    destruct (drain (length (pending s)) (nap s) Hc' HR' Hl) as (A & B & C & D). cbv zeta. repeat split; auto; congruence.
+  Qed.
+End Facts3.
